@@ -499,6 +499,10 @@ def explore(ctx):
         derived = scale_derived_sets(maxdel)
         nsh = 24
         ctx.product("recognition", list(range(nsh)), lambda i: derived[i::nsh])
+        # names that no scale holds (and names of three accidentals): alone, and added to notes that many scales hold
+        strangers = ["D##", "A##", "E##", "B##", "Cbb", "Dbb", "Fbb", "Gbb", "F##", "Bbb", "C###", "Gbbb"]
+        ctx.bound("recognition_strangers", strangers)
+        ctx.serial("recognition", [x for st in strangers for x in ([st], ["C", st], ["C", "E", "G", st], [st, "F#", "A#", "C#"], [st, st])])
     if not ctx.only:
         ctx.guard("heptatonic ascending forms", ctx.counter("heptatonic_ascending"), 2000)
         ctx.guard("non-heptatonic ascending forms", ctx.counter("non_heptatonic_ascending"), 200)
